@@ -219,7 +219,8 @@ class C16(Check):
         res["shape"] = ",".join(shapes)
         for name, _ in results[1:]:
             bump(res["faults"], "env_" + name)
-        res["vtime"] = 0.0
+        res["vtime"] = sum(r[ci].get("vtime", 0.0) for _, r in results for ci in r)
+        res["steps"] = sum(r[ci].get("steps", 0) for _, r in results for ci in r)
         return res
 
 
